@@ -363,11 +363,47 @@ def r06_4_bool_and_prefix(ctx):
     ctx.require_min("R06.4", 14)
 
 
+def r06_5_sequence_setters(ctx):
+    ctx.rule("R06.5", "arrays and addresses assembled from element values accept any sequence of the right elements: a list and a tuple of the same element values are both accepted by StaticArray.set, DynamicArray.set and Address.set and build the same expression; a sequence of the wrong length is refused for the fixed-length types")
+    W = AbiWorld(ctx)
+    W.real_bases = {"BaseType"}
+    cases = [(("sarr", ("uint", 8), 3), ("uint", 8), 3), (("darr", ("uint", 16)), ("uint", 16), 2), (("address",), ("byte",), 32), (("sarr", ("bool",), 9), ("bool",), 9), (("darr", ("string",)), ("string",), 2)]
+    for shape, el, n in cases:
+        cname = arc4.class_of(shape).replace("TypeSpec", "")
+        c = ctx.model.find_class(cname)
+        ctx.analysed(c.fq + ".set")
+        results = {}
+        for kind in ("list", "tuple"):
+            t = W.spec(shape).methods["new_instance"]()
+            vals = [W.spec(el).methods["new_instance"]() for _ in range(n)]
+            arg = list(vals) if kind == "list" else tuple(vals)
+            try:
+                r = t.methods["set"](arg)
+                results[kind] = "accepted"
+            except Raised as ex:
+                results[kind] = f"refused ({ex.exc_text[:50]})"
+        ctx.check(results["list"] == "accepted" and results["tuple"] == "accepted", "R06.5", f"{cname}.set[{arc4.sig(shape)} from {n} element value(s)]", f"a list is {results['list']}, a tuple is {results['tuple']}; both are sequences of the {n} element values", c.where, fact=results)
+        if shape[0] in ("sarr", "address"):
+            t = W.spec(shape).methods["new_instance"]()
+            try:
+                t.methods["set"]([W.spec(el).methods["new_instance"]() for _ in range(n - 1)])
+                short = "accepted"
+            except Raised:
+                short = "refused"
+            ctx.check(short == "refused", "R06.5", f"{cname}.set[{arc4.sig(shape)} from {n - 1} element value(s)]", f"a sequence of {n - 1} element(s) for {n} is {short}", c.where, fact={})
+    ctx.require_min("R06.5", 7)
+
+
 def run(ctx):
     r06_1_descriptors(ctx)
     r06_2_encode_tuple(ctx)
     r06_3_uint(ctx)
     r06_4_bool_and_prefix(ctx)
+    r06_5_sequence_setters(ctx)
+    from rules import c10 as _c10b, c19 as _c19b
+
+    _c10b.r10_5_frame_locals(ctx)  # where the 128th value of a routine lives (frame cell or scratch slot) when a value is assembled from many parts (shared with C10)
+    _c19b.r19_5_signature_types(ctx)  # types taken from a method signature keep their ARC-4 name (shared with C19)
     from rules import c03 as _c03, c11 as _c11
 
     # the encoders park head/tail pieces in temporaries (store ...; load ...): the encoded bytes survive compilation only
